@@ -67,7 +67,50 @@ fn gen_op(ctx: &mut Ctx, stack_len: u64, hp: u64, giant: bool) -> MOp {
     }
 }
 
+/// scripted histories (added after seeded change C31-1: `grow_heap_by` re-allocation keeping dirty bytes when a
+/// small in-place allocation preceded it): dirty heap of `a` bytes, reset, small allocation served in place,
+/// then an allocation that forces re-allocation, then reads of the whole heap region
+fn mem_scripted(ctx: &mut Ctx) {
+    const M: u64 = fuel_vm::consts::VM_MAX_RAM;
+    for (hi, (a, small, big)) in [(1024u64, 8u64, 2048u64), (300, 1, 300), (4096, 64, 4097), (256, 255, 2), (1000, 8, 100_000), (70_000, 32, 70_000), (513, 512, 8)].iter().enumerate() {
+        let mut ops: Vec<MOp> = vec![MOp::GrowHeap(0, *a)];
+        let mut off = 0u64;
+        while off < *a { let n = (*a - off).min(64); ops.push(MOp::Write(M - *a + off, vec![0xAA; n as usize])); off += n; }
+        ops.push(MOp::Reset);
+        ops.push(MOp::GrowHeap(0, *small));
+        ops.push(MOp::Read(M - *small, *small));
+        ops.push(MOp::GrowHeap(0, *big));
+        let total = *small + *big;
+        let mut off = 0u64;
+        while off < total { let n = (total - off).min(300); ops.push(MOp::Read(M - total + off, n)); off += n; }
+        let mut m = MemoryInstance::new();
+        let mut hp = M;
+        ctx.emit("m new", &format!("ok - sl=0 hp={hp} hl=0"));
+        let mut done = vec![];
+        let mut last_reset = None;
+        for op in ops {
+            let r = apply(&mut m, &mut hp, &op);
+            if matches!(op, MOp::Reset) { last_reset = Some(done.len()); ctx.count("mem.scripted.reset-with-dirty-heap"); }
+            let st = format!("sl={} hp={hp} hl={}", m.stack_raw().len(), m.heap_raw().len());
+            let ans = match &r { Ok(b) => format!("ok {} {st}", hex(b)), Err(e) => format!("err {e} {st}") };
+            ctx.emit(&line(&op), &ans);
+            done.push((op, r));
+        }
+        if let Some(k) = last_reset {
+            let mut f = MemoryInstance::new();
+            let mut fhp = M;
+            for (i, (op, r)) in done[k + 1..].iter().enumerate() {
+                let rf = apply(&mut f, &mut fhp, op);
+                if &rf != r { ctx.oracle_fail("reset-memory-differs-from-new", &format!("scripted#{hi} op {} {}", k + 1 + i, line(op)), &format!("reused {r:?} vs fresh {rf:?}")); break; }
+            }
+            if f != m || fhp != hp { ctx.oracle_fail("reset-memory-not-equal-new", &format!("scripted#{hi}"), "final memories differ (PartialEq)"); }
+            ctx.distinct(format!("scripted{hi}").as_bytes());
+        }
+    }
+}
+
 fn mem_histories(ctx: &mut Ctx) {
+    mem_scripted(ctx);
     let nh = ctx.n(80, 1500);
     for hi in 0..nh {
         let mut m = MemoryInstance::new();
